@@ -24,6 +24,7 @@ def dopsF32 : DOps Float32 where
   lt := fun a b => a < b
   isZero := fun a => a == 0
   isNaN := Float32.isNaN
+  oddInt := fun b => let q := b / 2; b - 2 * (if q < 0 then q.ceil else q.floor) == 1
 
 def dopsF64 : DOps Float where
   zero := 0
@@ -42,6 +43,7 @@ def dopsF64 : DOps Float where
   lt := fun a b => a < b
   isZero := fun a => a == 0
   isNaN := Float.isNaN
+  oddInt := fun b => let q := b / 2; b - 2 * (if q < 0 then q.ceil else q.floor) == 1
 
 def V3.map {α β : Type} (g : α → β) (v : V3 α) : V3 β := ⟨g v.x, g v.y, g v.z⟩
 
